@@ -80,19 +80,36 @@ def sequence_data(I, N=None, Tn=None):
 class ResultsModel:
     """what the permutation code uses of pulser.backend.Results"""
     TAGS = ("bitstrings", "occupation", "correlation_matrix")
+    # pulser stores the results of Observable(tag_suffix=s) under f"{base_tag}_{s}" (needed as soon as
+    # two observables of one kind are requested); MPSConfig.check_permutable_observables looks at the
+    # BASE tag, so all of these can occur with the qubit-order optimisation on.  Representative
+    # suffixed tags of the three per-atom kinds, and of kinds that are NOT per atom (must stay untouched)
+    SUFFIXED = ("bitstrings_z", "occupation_x", "correlation_matrix_y")
+    NOT_PER_ATOM = ("energy", "energy_x", "energy_variance_corr")
+    ALL_TAGS = TAGS + SUFFIXED + NOT_PER_ATOM
+
+    @staticmethod
+    def kind_of(tag):
+        """the per-atom kind of a result tag (base tag, or base tag + '_' + suffix), else None"""
+        for base in ResultsModel.TAGS:
+            if tag == base or tag.startswith(base + "_"):
+                return base
+        return None
 
 
 def results_obj(I, N, atom_order=None, tags=ResultsModel.TAGS, name="results"):
     """Results with per-time data for the given tags; every per-atom container has N entries.
     bitstrings[t] = Counter with one generic entry {string: count} (an arbitrary entry of an
-    arbitrary counter: the code treats the entries of a counter independently)."""
+    arbitrary counter: the code treats the entries of a counter independently).  A tag that is
+    not of a per-atom kind holds one real number per time."""
     ctx = I.ctx
     r = SymObj("Results", None)
     r.fields["atom_order"] = atom_order if atom_order is not None else P.elem_seq(I, name + ".atom_order", N, "tuple")
     store = {}
     n_times = ctx.fresh(name + ".times", "int")
     ctx.assume(n_times >= 0)
-    if "bitstrings" in tags:
+
+    def bit_data():
         ch = z3.Function(ctx.fresh_name("bit"), z3.IntSort(), z3.IntSort(), z3.IntSort())
         cnt = z3.Function(ctx.fresh_name("count"), z3.IntSort(), z3.IntSort())
         memo = {}
@@ -105,14 +122,22 @@ def results_obj(I, N, atom_order=None, tags=ResultsModel.TAGS, name="results"):
                     return ch(to_z3(t), to_z3(k))
                 memo[key] = {symstr.SymStr(N, char): cnt(to_z3(t))}
             return memo[key]
-        store["bitstrings"] = SymSeq(n_times, counter)
-    if "occupation" in tags:
+        return SymSeq(n_times, counter)
+
+    def occ_data():
         occ = I.reg.sym_tensor(I, ctx.fresh_name("occ"), (n_times, N))
-        store["occupation"] = SymSeq(n_times, lambda t: T.LamTensor((N,), lambda k, t=t: occ.fn(t, k), "real"))
-    if "correlation_matrix" in tags:
+        return SymSeq(n_times, lambda t: T.LamTensor((N,), lambda k, t=t: occ.fn(t, k), "real"))
+
+    def corr_data():
         cor = I.reg.sym_tensor(I, ctx.fresh_name("corr"), (n_times, N, N))
-        store["correlation_matrix"] = SymSeq(
-            n_times, lambda t: T.LamTensor((N, N), lambda i, j, t=t: cor.fn(t, i, j), "real"))
+        return SymSeq(n_times, lambda t: T.LamTensor((N, N), lambda i, j, t=t: cor.fn(t, i, j), "real"))
+
+    def scalar_data():
+        val = z3.Function(ctx.fresh_name("scalar"), z3.IntSort(), z3.RealSort())
+        return SymSeq(n_times, lambda t: val(to_z3(t)))
+    make = {"bitstrings": bit_data, "occupation": occ_data, "correlation_matrix": corr_data, None: scalar_data}
+    for tag in tags:
+        store[tag] = make[ResultsModel.kind_of(tag)]()
     r.fields["_results"] = store
     r.fields["get_result_tags"] = lambda I2: list(tags)
     r.fields["_find_uuid"] = lambda I2, tag: tag           # the tag doubles as the uuid
